@@ -42,3 +42,35 @@ Proof. exists [Replace; Step; Step; Write; Step]. split; reflexivity. Qed.
 Lemma reload_only_refuted :
   exists evs, quiescent (run ReloadOnly evs) = true /\ fresh (run ReloadOnly evs) = false.
 Proof. exists [Replace; Step; Step; Step; Replace]. split; reflexivity. Qed.
+
+(* ---- reported errors ---- *)
+Lemma run_e_ignoring o evs : forall s,
+  halted s = false ->
+  fold_left (step_e false o) evs s = {| base := fold_left (step o) (erase evs) (base s); halted := false |}.
+Proof.
+  induction evs as [|e evs IH]; intros [b h] Hh; cbn in Hh; subst h; cbn [fold_left erase]; [reflexivity|].
+  destruct e as [e|].
+  - cbn [erase fold_left]. rewrite IH; [|destruct e; reflexivity]. destruct e; reflexivity.
+  - cbn [step_e]. apply IH. reflexivity.
+Qed.
+
+(* a loop that logs reported errors and goes on behaves as if they had not happened: the safety of the code's order
+   carries over to histories with any number of errors in them *)
+Lemma errors_ignored_safe evs :
+  quiescent (base (run_e false RearmThenReload evs)) = true ->
+  fresh (base (run_e false RearmThenReload evs)) = true /\ watched (base (run_e false RearmThenReload evs)) = true /\
+  halted (run_e false RearmThenReload evs) = false.
+Proof.
+  unfold run_e. rewrite run_e_ignoring by reflexivity. cbn [base halted]. intro Q.
+  destruct (rearm_then_reload_safe (erase evs) Q) as [A B]. auto.
+Qed.
+
+(* a loop that ends at the first reported error never serves the events queued afterwards *)
+Lemma stop_on_error_refuted o :
+  exists evs, pend_w (base (run_e true o evs)) = true /\ fresh (base (run_e true o evs)) = false /\
+              forall k, run_e true o (evs ++ repeat (Ev Step) k) = run_e true o evs.
+Proof.
+  exists [Err; Ev Write]. split; [reflexivity|]. split; [reflexivity|].
+  intro k. unfold run_e. rewrite fold_left_app. cbn [fold_left step_e base halted].
+  induction k as [|k IH]; cbn [repeat fold_left]; [reflexivity|]. cbn [step_e halted]. exact IH.
+Qed.
